@@ -34,6 +34,8 @@ func main() {
 			os.Exit(usage())
 		}
 		os.Exit(replayMain(os.Args[2]))
+	case "report":
+		os.Exit(reportMain(os.Args[2:]))
 	case "selftest":
 		os.Exit(selftestMain(os.Args[2:]))
 	case "gen":
